@@ -5,7 +5,7 @@ IDS="${*:-C01 C02 C03 C04 C05 C06 C07 C08 C09 C10 C11 C12 C13 C14 C15 C16 C17 C1
 cd "$(dirname "$0")/.."
 for c in $IDS; do
   s=$(date +%s)
-  timeout 3600 ./check $c --tier $TIER > /tmp/run_all_$c.log 2>&1; rc=$?
+  timeout ${CHECK_TIMEOUT:-5400} ./check $c --tier $TIER > /tmp/run_all_$c.log 2>&1; rc=$?
   e=$(date +%s)
   echo "$c rc=$rc $((e-s))s $(grep -E "^$c \[" /tmp/run_all_$c.log | tail -1)"
   [ $rc -ne 0 ] && grep -E "VIOLATION|MACHINERY|key:" /tmp/run_all_$c.log | head -6
